@@ -423,7 +423,7 @@ def predictions(s, rng, fi, combo_index, malformed=False):
         if cls in ('CWLS', 'CRWLS'):
             extra = rng.choice([1.0, 0.5, 2.0, rng.uniform(0.05, 3)])
             if malformed and rng.random() < 0.3: extra = -extra
-        if rng.random() < (0.5 if cls == 'COLS' else 0.7):
+        if rng.random() < 0.5:
             p = rng.choice([1, 1, 2, 3, 5])
             if malformed and rng.random() < 0.2: p = 0
             x0 = rng.uniform(-5, 5)
